@@ -215,7 +215,7 @@ def cfgB : Cfg := { members := ["p", "i", "d"], combined := false, hasR := fun m
 through `write_<struct>` and `read_<struct>` -/
 example : (run cfgA (init cfgA) [
       .driverAssignMember "p" 9,
-      .writeMember "i" 5 .retNone (some [("p", 9), ("i", 4), ("d", 0)]) .fail]).map (fun s => (s.struct, s.mem, s.ok)) =
+      .writeMember "i" 5 .retNone (.ok [("p", 9), ("i", 4), ("d", 0)]) (.fail .value)]).map (fun s => (s.struct, s.mem, s.ok)) =
     [([("p", 9), ("i", 0), ("d", 0)], [("p", 9), ("i", 0), ("d", 0)], true),
      ([("p", 9), ("i", 4), ("d", 0)], [("p", 9), ("i", 4), ("d", 0)], true)] := by decide
 
@@ -223,7 +223,7 @@ example : (run cfgA (init cfgA) [
 which the second member fails still leaves the struct up to date with the first -/
 example : (run cfgB (init cfgB) [
       .driverAssignStruct [("p", 3), ("i", 4), ("d", 1)],
-      .readStruct none (fun m => if m = "p" then some 7 else none)]).map (fun s => (s.struct, s.mem, s.ok)) =
+      .readStruct (.fail .secop) (fun m => if m = "p" then .ok 7 else .fail .value)]).map (fun s => (s.struct, s.mem, s.ok)) =
     [([("p", 3), ("i", 4), ("d", 1)], [("p", 3), ("i", 4), ("d", 1)], true),
      ([("p", 7), ("i", 4), ("d", 1)], [("p", 7), ("i", 4), ("d", 1)], false)] := by decide
 
@@ -237,29 +237,18 @@ end struct
 section floatenum
 open Frappy.ExtParams
 
-/-- the full statement: for every label set, every start index and every history the float parameter shows the
-value of the current index after every operation, and an accepted write selected a closest label -/
-def floatenum_consistent_statement : Prop :=
-  ∀ (cfg : FCfg) (idx0 : Int), (cfg.vdict.map Prod.fst).Nodup → validIdx cfg idx0 = true →
-    ∀ (pre : List FOp) (op : FOp), FloatEnumOk cfg.vdict (frecOf cfg (fexec cfg (finit cfg idx0) pre) op)
-
-theorem finv_exec (cfg : FCfg) (ops : List FOp) (hops : ∀ op ∈ ops, isAssignFloat op = false) :
-    ∀ s, FInv cfg s → FInv cfg (fexec cfg s ops) := by
+theorem finv_exec (cfg : FCfg) (ops : List FOp) : ∀ s, FInv cfg s → FInv cfg (fexec cfg s ops) := by
   induction ops with
   | nil => intro s h; exact h
-  | cons op ops ih =>
-    intro s h
-    exact ih (fun o ho => hops o (List.mem_cons_of_mem _ ho)) _ (finv_step cfg s op h (hops op List.mem_cons_self))
+  | cons op ops ih => intro s h; exact ih _ (finv_step cfg s op h)
 
-/-- **floatenum_consistent_partial** — for every label set (any values, any index numbering, any order), every
-history of client writes of the float parameter and of the index, reads, and driver-side assignments to the
-index — with any outcome of the programmer's `read_/write_<idx>` bodies — the float parameter shows
-`valuedict[index]` after every operation, and every accepted write of the float parameter handed the driver
-an index whose value no other label is closer to.  Missing for the full statement: a driver-side assignment
-to the float parameter itself (`floatenum_consistent_fails`). -/
-theorem floatenum_consistent_partial (cfg : FCfg) (idx0 : Int) (hn : (cfg.vdict.map Prod.fst).Nodup)
-    (h0 : validIdx cfg idx0 = true) (pre : List FOp) (op : FOp)
-    (hpre : ∀ o ∈ pre, isAssignFloat o = false) (hop : isAssignFloat op = false) :
+/-- **floatenum_consistent** — for every label set (any values, any index numbering, any order, unique indices), every
+history of client writes of the float parameter and of the index, reads, and driver-side assignments to the index
+**and to the float parameter itself** — with any outcome of the programmer's `read_/write_<idx>` bodies (a value,
+`None`, a SECoP error or any other exception) — the float parameter shows `valuedict[index]` after every operation,
+and every accepted write of the float parameter handed the driver an index whose value no other label is closer to. -/
+theorem floatenum_consistent (cfg : FCfg) (idx0 : Int) (hn : (cfg.vdict.map Prod.fst).Nodup)
+    (h0 : validIdx cfg idx0 = true) (pre : List FOp) (op : FOp) :
     FloatEnumOk cfg.vdict (frecOf cfg (fexec cfg (finit cfg idx0) pre) op) := by
   have hinit : FInv cfg (finit cfg idx0) := by
     unfold validIdx at h0
@@ -267,8 +256,8 @@ theorem floatenum_consistent_partial (cfg : FCfg) (idx0 : Int) (hn : (cfg.vdict.
     cases h : cfg.vdict.lookup idx0 with
     | none => rw [h] at h0; simp at h0
     | some v => simp
-  have hs := finv_exec cfg pre hpre _ hinit
-  refine ⟨finv_step cfg _ op hs hop, ?_⟩
+  have hs := finv_exec cfg pre _ hinit
+  refine ⟨finv_step cfg _ op hs, ?_⟩
   intro x hw hok
   cases op with
   | writeFloat y w =>
@@ -284,12 +273,12 @@ theorem floatenum_consistent_partial (cfg : FCfg) (idx0 : Int) (hn : (cfg.vdict.
 
 def fcfg : FCfg := { vdict := [(0, 4), (1, 1), (2, 16)], lo := 1, hi := 16, hasR := false, hasW := true }
 
-/-- the recorded finding: `self.<name> = x` from the driver stores `x` in the float parameter and leaves the
-index alone, so the full statement fails -/
-theorem floatenum_consistent_fails : ¬ floatenum_consistent_statement := by
-  intro h
-  have := (h fcfg 0 (by decide) (by decide) [] (.driverAssignFloat 9)).1
-  exact absurd this (by unfold ShowsIndexValue; decide)
+/-- the repaired finding: `self.<name> = 9` from the driver moves the index to the closest label (4 → index 0 is at
+distance 5, 16 → index 2 at distance 7) and the float parameter shows its value -/
+example : (frun fcfg (finit fcfg 1) [.driverAssignFloat 9, .driverAssignFloat 16, .driverAssignFloat 1]).map
+    (fun s => (s.idx, s.value, s.evs)) =
+    [(0, 4, [.value 4, .idx 0, .value 4]), (2, 16, [.value 16, .idx 2, .value 16]), (1, 1, [.value 1, .idx 1, .value 1])] := by
+  decide
 
 /-- **closest_first_minimum** — the tie rule of `min(valuedict, key=…)`: the selected label is strictly closer than
 every label before it in `valuedict` order and at least as close as every label after it. -/
@@ -341,8 +330,8 @@ theorem limits_step (cfg : LCfg) (s : LSt) (op : LOp) : LimitsOk (lrecOf cfg s o
       subst hw
       simp only [lrecOf, lstep1, lstep] at hok ⊢
       by_cases hr : inRange cfg y = true
-      · by_cases hc : checkLimits cfg { s with evs := [] } y = true
-        · have hwithin : Within (limitsOf cfg s) y := within_of_check cfg { s with evs := [] } y hc
+      · by_cases hc : checkLimits cfg { s with evs := [], exc := none } y = true
+        · have hwithin : Within (limitsOf cfg s) y := within_of_check cfg { s with evs := [], exc := none } y hc
           refine ⟨hwithin, ?_⟩
           intro he
           simp only [hr, hc, Bool.not_true, Bool.false_eq_true, if_false] at hok ⊢
